@@ -3,6 +3,7 @@
 //@ include prelude/header.rs
 use vstd::std_specs::iter::IteratorSpec;
 verus! {
+//@ include prelude/std.rs
 //@ include prelude/error.rs
 //@ include prelude/value.rs
 
@@ -19,15 +20,72 @@ impl<'s> ValueCow<'s> {
     pub fn into_owned(self) -> (r: Value) ensures r.vid() == self.vid() { unimplemented!() }
 }
 
-/// ONE path step from a value: array element by (possibly negative) index, `first` / `last` / `size`, object member
-/// by key, `size` of a string; None when the step does not exist. Body is `augmented_get` (string patterns in
-/// `match` are outside Verus); its index arithmetic is under contract in unit `index`.
-pub uninterp spec fn step(v: VId, k: ScalarCow) -> Option<VId>;
-#[verifier::external_body]
-fn augmented_get<'o>(value: &'o dyn ValueView, index: &ScalarCow) -> (r: Option<ValueCow<'o>>)
-    ensures r matches Some(c) ==> step(value.vid_of(), *index) == Some(c.vid()),
-            r is None ==> step(value.vid_of(), *index) is None
-{ unimplemented!() }
+// ---- structure of a value as a function of its identity (assumed: what a view answers is determined by the value) ----
+pub uninterp spec fn vid_array(v: VId) -> Option<Seq<VId>>;
+pub uninterp spec fn vid_scalar(v: VId) -> Option<ScalarCow>;
+/// the identity of a freshly built integer value
+pub uninterp spec fn int_vid(n: int) -> VId;
+pub broadcast axiom fn axiom_structure_array(v: &dyn ValueView)
+    ensures #[trigger] v.array_of() == vid_array(v.vid_of());
+pub broadcast axiom fn axiom_structure_scalar(v: &dyn ValueView)
+    ensures #[trigger] v.scalar_of() == vid_scalar(v.vid_of());
+pub broadcast group axiom_structure { axiom_structure_array, axiom_structure_scalar }
+/// an object's size is the number of its members
+pub broadcast axiom fn axiom_entries(o: &dyn ObjectView)
+    ensures #[trigger] o.entries() == obj_members(o).dom().len() && obj_members(o).dom().finite();
+/// a value built from an integer has that integer's identity
+pub broadcast axiom fn axiom_int_value(v: Value)
+    ensures (#[trigger] v.num()) matches Some(Num::Int(n)) ==> v.vid() == int_vid(n as int);
+/// `ObjectView::get` (extension trait: same cycle as ArrayEnds); agrees with the member map of the value it came from
+pub trait ObjectMembers<'a> {
+    spec fn members_of(&self) -> Map<Seq<char>, VId>;
+    fn get(&self, index: &str) -> (r: Option<&'a dyn ValueView>)
+        ensures !self.members_of().dom().contains(index@) ==> r is None,
+                self.members_of().dom().contains(index@) ==> (r matches Some(v) && v.vid_of() == self.members_of()[index@]);
+}
+impl<'a> ObjectMembers<'a> for &'a dyn ObjectView {
+    open spec fn members_of(&self) -> Map<Seq<char>, VId> { obj_members(*self) }
+    #[verifier::external_body]
+    fn get(&self, index: &str) -> (r: Option<&'a dyn ValueView>) { unimplemented!() }
+}
+impl core::ops::Deref for KStringCow {
+    type Target = str;
+    #[verifier::external_body]
+    fn deref(&self) -> (r: &str) ensures r@ == self.chars_view() { unimplemented!() }
+}
+impl KStringCow {
+    #[verifier::external_body]
+    pub fn as_str(&self) -> (r: &str) ensures r@ == self.chars_view() { unimplemented!() }
+}
+pub assume_specification<'a>[ <core::str::Chars<'a> as Iterator>::count ](c: core::str::Chars<'a>) -> (r: usize)
+    ensures r == c.remaining().len();
+
+/// ONE path step, as the property states it: "object members by key, array elements by zero-based index with negative
+/// indices counting from the end, and first, last and size by their meaning"; None when the step does not exist.
+/// An object's own key wins over the `size` overlay.
+pub open spec fn step(v: VId, k: ScalarCow) -> Option<VId> {
+    let key = k.text().chars_view();
+    match vid_array(v) {
+        Some(a) => match k.int_view() {
+            Some(i) => seq_idx(a, i as int),
+            None =>
+                if key == "first"@ { if a.len() > 0 { Some(a[0]) } else { None } }
+                else if key == "last"@ { if a.len() > 0 { Some(a[a.len() - 1]) } else { None } }
+                else if key == "size"@ { Some(int_vid(a.len() as int)) }
+                else { None },
+        },
+        None => match vid_members(v) {
+            Some(m) =>
+                if m.dom().contains(key) { Some(m[key]) }
+                else if key == "size"@ { Some(int_vid(m.dom().len() as int)) }
+                else { None },
+            None => match vid_scalar(v) {
+                Some(sc) => if key == "size"@ { Some(int_vid(sc.text().chars_view().len() as int)) } else { None },
+                None => None,
+            },
+        },
+    }
+}
 
 // ---- what `find` needs to build its error message (no contract: the message is not part of any property) ----
 impl Error {
@@ -107,6 +165,23 @@ pub open spec fn walk(v: VId, s: Seq<&ScalarCow>) -> Option<VId>
         match step(v, *s[0]) { None => None, Some(c) => walk(c, s.drop_first()) }
     }
 }
+
+//@ item crates/core/src/model/find.rs :: fn augmented_get
+//@ props C07 C02
+//@ sig fn augmented_get<'o>(value: &'o dyn ValueView, index: &ScalarCow) -> (r: Option<ValueCow<'o>>)
+//@ spec
+    ensures
+        r matches Some(c) ==> step(value.vid_of(), *index) == Some(c.vid()),          // [C07:one_step_by_its_meaning]
+        r is None ==> step(value.vid_of(), *index) is None,                            // [C07:a_step_that_does_not_exist_is_none]
+//@ editall <<.map(ValueCow::Borrowed)>> => <<.map(|__v: &'o dyn ValueView| -> (__c: ValueCow<'o>) ensures __c == ValueCow::Borrowed(__v), { ValueCow::Borrowed(__v) })>> why: eta-expansion; Verus has no datatype constructors as function values
+//@ editreall <<"(\w+)" =>\s>> => <<__k if __k == "\1" => >> why: a string-literal pattern is written as a binding with an equality guard (same arm order, same bodies); Verus has no contract for string patterns
+//@ closure 0 arg_of=or_else params=
+|| -> (o: Option<ValueCow<'o>>)
+    ensures index.chars_view() != "size"@ ==> o is None,
+            index.chars_view() == "size"@ ==> (o matches Some(c) && c.vid() == int_vid(obj.entries()))
+//@ prologue
+    broadcast use axiom_structure, axiom_entries, axiom_int_value, group_kstr; proof { reveal_strlit("first"); reveal_strlit("last"); reveal_strlit("size"); }
+//@ end
 
 //@ item crates/core/src/model/find.rs :: fn try_find_borrowed
 //@ props C07 C02
